@@ -11,7 +11,24 @@ COMMON_ASSUME = [
     "the Impl model is hand-written; its tie to /repo is the correspondence run of this check",
 ]
 
+TABLE_ASSUME = COMMON_ASSUME + [
+    "tables below 2^32 bytes (the u32 Length field); beyond is outside every theorem and every run",
+    "crate-chosen constants (creator id/revision, table revisions) are part of the model and of the reference"]
+
 PROPS = {
+    "C01": {
+        "rule": "cases = (constructor, operation history) per checksummed structure with observations of the serialised image after "
+                "prefixes: empty history, each operation kind alone, all ordered pairs of kinds, homogeneous runs of 300 entries "
+                "(count 255->256) and runs crossing 65535->65536 bytes, random mixed histories with full-range field values; "
+                "distinct = distinct case text; non-trivial = any case (the empty history of each table counts once)",
+        "exhaustive": {"quick": False, "thorough": False},
+        "assumptions": TABLE_ASSUME,
+    },
+    "C02": {
+        "rule": "same histories as C01, judged on (Length field, number of bytes observed); RSDP offset 20 = 36, FACS offset 4 = 64",
+        "exhaustive": {"quick": False, "thorough": False},
+        "assumptions": TABLE_ASSUME,
+    },
     "C07": {
         "rule": "cases = (content size n, include_self) handed to the private create_pkg_length through the cfg hook; "
                 "quick: every n < 70000 in both forms, +-64 around 2^12, 2^20, 2^28, 200000 random n < 2^28, 20 sizes beyond 2^28; "
